@@ -13,6 +13,7 @@
   the correspondence run and against an independent RFC 7616/7617 reading only by the Python oracle.
 -/
 import LtVerif.Proofs.Auth
+import LtVerif.Proofs.AuthSplayCleanup
 namespace LtVerif.C16
 open LtVerif B LtVerif.Auth
 
@@ -343,5 +344,126 @@ example : (run Ex.P Ex.cfg Ex.st0 [.request (Ex.basicReq "YWxpY2U6d29uZGVy"), .s
   decide +kernel
 example : (run Ex.P Ex.cfg Ex.st0 [.request (Ex.basicReq "YWxpY2U6d29uZGVy"), .secs 609]).cache = [] := by
   decide +kernel
+
+/-! ### The container behind auth.cache (algo_splaytree.c, http_auth_cache_query / _insert, the delete
+    step of mod_auth_periodic_cleanup) refines the finite map `Cache` the theorems above are stated on.
+    `Model/AuthSplay.lean` transcribes the C (top-down splay with its two assembly trees, rotate / link /
+    assemble; insert_splayed; delete_splayed_node with its OVERWRITE of `x->right`).
+    mod_auth_tag_old_entries' post-order walk with its 8192-key batch limit and the do-while around it
+    (`tagOld`, `deleteKeys`, `periodicCleanup`) are proved equal to `Cache.cleanup` for every batch size > 0.
+    NOT covered: splaytree_insert / splaytree_delete (unused by mod_auth), amortised cost, memory safety
+    of the pointer code (ASan in the correspondence run). -/
+
+open LtVerif.AuthSplay in
+/-- the tree holds exactly the entries of the abstract cache, in search-tree order -/
+def TreeRep (t : Tree Entry) (c : Cache) : Prop := Sorted t ∧ ∀ p, p ∈ t.inorder ↔ p ∈ c
+
+open LtVerif.AuthSplay in
+/-- splaying (any tree — search tree or not —, any key, present or not) neither loses, duplicates,
+    reorders nor changes an entry: the in-order sequence of (key, data) is unchanged -/
+theorem c16_splay_keeps_entries {α : Type} (t : Tree α) (i : Int) :
+    (splay t i).inorder = t.inorder ∧ (splayNonnull t i).inorder = t.inorder :=
+  ⟨inorder_splay t i, inorder_splayNonnull t i⟩
+
+open LtVerif.AuthSplay in
+/-- http_auth_cache_query() on a search tree is the finite-map lookup: it answers `v` exactly when
+    (key, v) is stored (under any shape the earlier operations left), keeps the contents, and leaves a
+    neighbour of the key at the root (what http_auth_cache_insert() relies on without splaying again) -/
+theorem c16_tree_query_is_map_lookup {α : Type} (t : Tree α) (key : Int) (hs : Sorted t) :
+    (cacheQuery t key).1.inorder = t.inorder ∧ Sorted (cacheQuery t key).1 ∧ Near key (cacheQuery t key).1 ∧
+    ∀ v, (cacheQuery t key).2 = some v ↔ (key, v) ∈ t.inorder :=
+  ⟨cacheQuery_inorder t key, sorted_of_inorder_eq (cacheQuery_inorder t key) hs, cacheQuery_near t key hs,
+   fun v => cacheQuery_found t key v hs⟩
+
+open LtVerif.AuthSplay in
+/-- query-then-insert (the order mod_auth_check_basic() / mod_auth_digest_get() use) refines
+    `Cache.insert`: new key → new node, equal key (hash collision or refresh) → data replaced, every
+    other entry kept, search-tree order kept -/
+theorem c16_tree_insert_refines_cache (t : Tree Entry) (c : Cache) (key : Int) (e : Entry)
+    (h : TreeRep t c) : TreeRep (cacheInsert (cacheQuery t key).1 key e) (c.insert key e) := by
+  obtain ⟨hs, hm⟩ := h
+  obtain ⟨hi, hs', hn, _⟩ := c16_tree_query_is_map_lookup t key hs
+  obtain ⟨h1, h2⟩ := cacheInsert_spec _ key e hs' hn
+  refine ⟨h1, fun p => ?_⟩
+  rw [h2 p, hi, hm p]
+  simp [Cache.insert, List.mem_filter]
+
+open LtVerif.AuthSplay in
+/-- the body of the delete loop of mod_auth_periodic_cleanup() (splay to a tagged key, delete the root)
+    removes exactly that entry from a search tree — although splaytree_delete_splayed_node() overwrites
+    `x->right`: that pointer is NULL because the splay brought the maximum of the left part up -/
+theorem c16_tree_delete_exact {α : Type} (t : Tree α) (key : Int) (w : α) (hs : Sorted t)
+    (hm : (key, w) ∈ t.inorder) :
+    (deleteSplayedNode (splayNonnull t key)).inorder = t.inorder.filter (fun p => p.1 ≠ key) ∧
+    Sorted (deleteSplayedNode (splayNonnull t key)) := by
+  have h := deleteKey_inorder t key w hs hm
+  refine ⟨h, ?_⟩
+  unfold Sorted at *
+  rw [h]
+  exact hs.filter _
+
+open LtVerif.AuthSplay in
+/-- http_auth_cache_query() = `Cache.lookup` (the lookup `basicHit` / `digestHitEntry` start from), for
+    caches with distinct keys — which `Cache.insert` / `Cache.cleanup` keep (c16_cache_keys_distinct_kept) -/
+theorem c16_tree_query_refines_cache_lookup (t : Tree Entry) (c : Cache) (key : Int)
+    (h : TreeRep t c) (hd : c.Pairwise (fun a b => a.1 ≠ b.1)) :
+    (cacheQuery t key).2 = c.lookup key ∧ TreeRep (cacheQuery t key).1 c := by
+  obtain ⟨hs, hm⟩ := h
+  have hk : ∀ v, (cacheQuery t key).2 = some v ↔ c.lookup key = some v := fun v => by
+    rw [cacheQuery_found t key v hs, hm, lookup_iff_mem c hd]
+  refine ⟨?_, sorted_of_inorder_eq (cacheQuery_inorder t key) hs, fun p => by rw [cacheQuery_inorder, hm]⟩
+  cases h1 : (cacheQuery t key).2 with
+  | none =>
+    cases h2 : c.lookup key with
+    | none => rfl
+    | some w => have := (hk w).2 h2; rw [h1] at this; cases this
+  | some v => exact ((hk v).1 h1).symm
+
+theorem c16_cache_keys_distinct_kept (c : Cache) (key : Int) (e : Entry) (maxAge cur : Int)
+    (hd : c.Pairwise (fun a b => a.1 ≠ b.1)) :
+    (c.insert key e).Pairwise (fun a b => a.1 ≠ b.1) ∧ (c.cleanup maxAge cur).Pairwise (fun a b => a.1 ≠ b.1) := by
+  refine ⟨?_, hd.filter _⟩
+  simp only [Cache.insert, List.pairwise_cons]
+  refine ⟨fun a ha => ?_, hd.filter _⟩
+  simp only [List.mem_filter, decide_eq_true_eq] at ha
+  exact fun h => ha.2 h.symm
+
+open LtVerif.AuthSplay in
+/-- mod_auth_periodic_cleanup() — tag up to `cap` (8192 in the C) expired keys in post-order, splay to and
+    delete each, repeat while the batch was full — refines `Cache.cleanup`: exactly the entries with
+    cur − ctime > max-age go, whatever the tree shape, the number of expired entries and the batch size -/
+theorem c16_tree_cleanup_refines_cache (t : Tree Entry) (c : Cache) (maxAge cur : Int) (cap : Nat)
+    (hcap : 0 < cap) (h : TreeRep t c) :
+    TreeRep (periodicCleanup (fun e => decide (cur - e.ctime > maxAge)) cap t) (c.cleanup maxAge cur) := by
+  obtain ⟨hs, hm⟩ := h
+  obtain ⟨e, s⟩ := periodicCleanup_inorder (fun e : Entry => decide (cur - e.ctime > maxAge)) cap hcap t hs
+  refine ⟨s, fun p => ?_⟩
+  rw [e]
+  simp [Cache.cleanup, List.mem_filter, hm]
+
+/-! non-vacuity: a tree built by the modelled operations themselves (keys 5, 3, 8, 4, then 3 replaced) -/
+namespace ExSplay
+open LtVerif.AuthSplay
+def ins (t : Tree Nat) (k : Int) (v : Nat) : Tree Nat := cacheInsert (cacheQuery t k).1 k v
+def t4 : Tree Nat := ins (ins (ins (ins .nil 5 50) 3 30) 8 80) 4 40
+end ExSplay
+open LtVerif.AuthSplay in
+example : Sorted ExSplay.t4 ∧ ExSplay.t4.inorder = [(3, 30), (4, 40), (5, 50), (8, 80)] := by
+  constructor
+  · unfold Sorted; decide
+  · decide
+open LtVerif.AuthSplay in
+example : ((splay ExSplay.t4 8).inorder, (cacheQuery ExSplay.t4 8).2, (cacheQuery ExSplay.t4 7).2)
+    = ([(3, 30), (4, 40), (5, 50), (8, 80)], some 80, none) := by decide
+open LtVerif.AuthSplay in
+example : (ExSplay.ins ExSplay.t4 3 31).inorder = [(3, 31), (4, 40), (5, 50), (8, 80)] := by decide
+open LtVerif.AuthSplay in
+example : (deleteSplayedNode (splayNonnull ExSplay.t4 5)).inorder = [(3, 30), (4, 40), (8, 80)] := by decide
+open LtVerif.AuthSplay in
+-- cleanup with a batch limit of 2 and three expired entries (two rounds of the do-while)
+example : (periodicCleanup (fun v : Nat => decide (v < 80)) 2 ExSplay.t4).inorder = [(8, 80)] ∧
+    tagOld (fun v : Nat => decide (v < 80)) 2 ExSplay.t4 [] = [3, 5] := by decide
+open LtVerif.AuthSplay in
+example : TreeRep (.nil : Tree Entry) [] := ⟨by simp [Sorted, Tree.inorder], by simp [Tree.inorder]⟩
 
 end LtVerif.C16
